@@ -113,6 +113,13 @@ CLAIMED['C07'] = ('Malformed.tla: 16 fault kinds applied at every line of TLC-ge
                   'trusted: TLC, line labelling and fault application in pv/c07.py; only the listed fault kinds are covered (no DBML '
                   'recogniser in the specification)',
                   'DESIGN.md 4.4, 5 (C07)')
+CLAIMED['C08'] = ('Soups.tla outcome automaton; TLC enumerates all token soups up to a bound over a 50-lexeme alphabet; plus mutations of '
+                  'generated documents, every short raw string in each quote style at free-text positions, awkward quoted identifiers in '
+                  'every identifier position, degenerate inputs; each parse-and-render-everything session validated by TLC (TraceSession.tla)',
+                  'bounded exhaustive + sampled: the specification contributes the alphabet and the automaton of allowed outcomes (it cannot '
+                  'predict accept/reject of a soup); this is the weakest use of the technique in the list and the evidence says so',
+                  'trusted: TLC, the stimulus builders in pv/c08.py, a 10 s watchdog per case for non-termination',
+                  'DESIGN.md 5 (C08), 9')
 NOT_YET = {}
 
 def main():
